@@ -500,8 +500,25 @@ theorem accepted_connection_within_configured (w : Generated.LimiterWiring.Serve
     · exact effective_one_le L
   omega
 
-/-- at the reviewed revision: a DTLS server configured with 4 / 1 gives its accepted connections 1 / 1 -/
-example : Model.LimiterWiring.limitsFor "dtlssrv" 4 1 = (1, 1) ∧ Model.LimiterWiring.limitsFor "tcpcli" 4 1 = (4, 1) := by decide
+/-- a server that assigns neither limit (the reviewed revision) gives its accepted connections 1 / 1 whatever it was configured with;
+    one that hands both down gives them its configuration; a client constructor's connection runs with the options' values -/
+def plainServerWiring : Generated.LimiterWiring.ServerWiring where
+  pkg := "dtls/server"
+  fn := "createConn"
+  base := "udpClient.DefaultConfig"
+  sets := []
+
+def handingDownServerWiring : Generated.LimiterWiring.ServerWiring where
+  pkg := "dtls/server"
+  fn := "createConn"
+  base := "udpClient.DefaultConfig"
+  sets := [("LimitClientParallelRequests", "s.cfg.LimitClientParallelRequests"),
+           ("LimitClientEndpointParallelRequests", "s.cfg.LimitClientEndpointParallelRequests")]
+
+example : Model.LimiterWiring.acceptedLimits plainServerWiring (1, 1) 4 1 = (1, 1) ∧
+    Model.LimiterWiring.acceptedLimits handingDownServerWiring (1, 1) 4 1 = (4, 1) ∧
+    serverWiredOk plainServerWiring = true ∧ serverWiredOk handingDownServerWiring = true ∧
+    Model.LimiterWiring.limitsFor "tcpcli" 4 1 = (4, 1) := by decide
 
 /-! ### Non-vacuity: concrete histories (limit 2, endpoint limit 1, three requests for one path) -/
 
